@@ -107,7 +107,7 @@ def main():
                  if nt and len(run.samples) < 4 else None)
         # metamorphic replays on a sample
         if n_ % 16 == 0:
-            for k in (-3, 5):
+            for k in (-3, 5, -30, 30):      # 2^-30 ~ 9e-10 (ambient noise in m/s), 2^30 ~ 1e9 (raw counts)
                 sc = 2.0 ** k
                 recs2 = [record(w, case["pat"][w], sc) for w in range(nwin)]
                 got2 = h.sta_lta_window_rejection(recs2, sta_seconds=STA, lta_seconds=LTA, min_sta_lta_ratio=lo,
